@@ -1,24 +1,30 @@
 from props_common import BASE_TB
 
 PROP = {
-    "modules": ["YorkieModel.Props.C04"],
+    "modules": ["YorkieModel.Props.C04", "YorkieModel.Props.C04Conc"],
     "engines": [
         {"name": "proto", "args": ["mix=schedules+malformed", "orc=c04"],
          "quick": {"n": 2400, "workers": 8, "args": ["shards=8"]},
          "thorough": {"n": 120000, "workers": 14, "args": ["shards=14"]}},
+        # forced interleavings of the phases of concurrent PushPull requests (yield hooks in server/packs, tag verif)
+        {"name": "conc", "args": ["orc=c04"],
+         "quick": {"n": 480, "workers": 8, "args": ["shards=8", "mix=ex2+rand"]},
+         "thorough": {"n": 8000, "workers": 14, "args": ["shards=14", "mix=ex2+ex3+rand"]}},
     ],
     "trusted_base": BASE_TB + [
         "Model/Server.lean is hand-written; it agrees with server/rpc, server/clients, server/packs, database/client_info.go and the memory DB only as far as the `proto` engine's request streams exercise them (sequential requests on one in-process server, memory DB)",
         "int64 serverSeq / uint32 clientSeq modelled as unbounded Int/Nat; client and document ids modelled by creation order (the harness counts ObjectIDs that are not monotone)",
+        "Model/Conc.lean: each phase of PushPull is one atomic step because each is one memdb transaction; memdb transactions are assumed atomic and isolated (validated by the forced interleavings, not proved). The point inside UpdateMinVersionVector is provided by a DB proxy that runs both transactions, discards the minimum, yields and re-reads (the second transaction is a pure read)",
+        "yield hooks in server/packs (build tag verif, add-only: four verifYield calls in PushPull/pullPack)",
         "harness reads the `versionvectors` table through the memory DB's unexported go-memdb handle (reflect/unsafe); everything else through exported API",
     ],
     "level_text": "Theorems in Lean over every sequential schedule of requests (unbounded length, any number of clients and documents, crafted packs included): the stored log is exactly serverSeq 1..N with head N; for well-behaved clients (explicit decidable discipline) delivery is exact with respect to the other actors, never echoes a change of the current attachment, and response checkpoints are monotone and bounded by the head. Tied to the real server by differential replay of generated and malformed request streams over the raw RPC endpoints.",
-    "level_note": "Sequential part only: interleavings of concurrent requests (DESIGN F.2, yield hooks) are not covered yet. Snapshot responses are not modelled (threshold configured out of reach). MongoDB implementation of the store is not run.",
-    "technique": "Lean 4 proof (invariants by induction over request lists) + differential replay against an in-process server",
+    "level_note": "Concurrent part (Props/C04Conc.lean): a small-step system in which every phase of every in-flight PushPull is one step and the pull(client,doc-key) lock is modelled; gap-free append-only log, exact delivery, no echo, monotone checkpoints and per-actor clientSeq order are proved for every reachable state of every interleaving (conc_*), and a request run alone equals the sequential model (conc_solo_is_sequential); tied to the code by enumerating all interleavings of two (thorough: three) requests at the yield points and sampled larger schedules. Snapshot responses are not modelled (threshold configured out of reach). MongoDB implementation of the store is not run.",
+    "technique": "Lean 4 proof (invariants by induction over request lists and over steps of a small-step concurrent system) + differential replay against an in-process server",
     "partial": [
-        "concurrent interleavings of push/pull phases (C04 'also when many clients push and pull at the same time'): not modelled yet, planned on the phase functions of Model/Server.lean",
+        "conc_refines_seq: only conc_solo_is_sequential and conc_refines_seq_partial (pull half) are proved; moving a request's start to its push point and equality of stored client/vv rows are not proved (conc_minvv_may_lead shows the returned minimum vector may run ahead of the push-order sequential run). The four clauses are proved directly on the concurrent system",
         "per_actor_clientSeq_ordered: stated per attachment generation; holds for documents with presence enabled and requests that only write while holding the document (false under the C11 detached-push defect, see Props/C11)",
     ],
-    "not_modelled": ["snapshot pull branch", "compaction", "MongoDB store", "concurrency"],
+    "not_modelled": ["snapshot pull branch", "compaction", "MongoDB store (CreateChangeInfos under DocPushKey is one memdb write transaction here)", "Deactivate in the concurrent model", "free-running parallel load (only forced interleavings at the yield points)", "a crafted PushPull whose pack names another document key takes a different pull lock than its document's (lockOf models the well-formed case)"],
     "assumptions": ["client discipline `WellBehaved` for the delivery clauses (cp = last response cp, unacknowledged changes resent with consecutive clientSeq)"],
 }
